@@ -307,13 +307,31 @@ class AbsType(AbstractValue):
         return Unknown(name)
 
     def abs_call(self, interp, args, kwargs):
-        return Obj(None, {})
+        # constructing the token: it remembers what read() returned, so that the number it is given can be compared
+        # with the line its block started on
+        return CapturedToken(args[0] if args else None)
+
+
+class CapturedToken(AbstractValue):
+    def __init__(self, result):
+        self.result = result
+        self.attrs = {}
+
+    def abs_setattr(self, interp, name, value):
+        self.attrs[name] = value
+
+    def abs_getattr(self, interp, name):
+        return self.attrs.get(name, Unknown(name))
+
+    def abs_is(self, interp, other):
+        return False if other is None else self is other
 
 
 def rule_capture(ctx, rep):
     model = ctx.model
     rep.rule('R-CAPTURE', 'the line number stored with a block is S + index of the line on which start() matched')
     tb = model.func('block_tokenizer.tokenize_block')
+    mt = model.func('block_tokenizer.make_tokens')
     rep.instance('R-CAPTURE')
     n_paths = 0
     n_entries = 0
@@ -327,22 +345,24 @@ def rule_capture(ctx, rep):
             types = [AbsType('T1', consume, log), AbsType('T2', 1, log)]
             try:
                 pb = it.call_function(tb, [lines, types], {'start_line': S})
+                # the entries' layout is the tokenizer's own business: the tokens are made by its own make_tokens
+                toks = it.call_function(mt, [pb], {})
             except Raised as e:
                 return ('raise', e)
             except LoopTruncated:
                 return ('trunc', None)
-            return ('ret', pb)
+            return ('ret', toks)
         for trace, (kind, pb) in enumerate_paths(run, 2000):
             n_paths += 1
             if kind != 'ret':
                 continue
-            items = pb.attrs.get('__items__') if isinstance(pb, Obj) else pb
-            if items is None:
-                items = []
-            for entry in items:
+            items = pb if isinstance(pb, (list, tuple)) else []
+            for tok in items:
+                if not isinstance(tok, CapturedToken):
+                    continue
                 n_entries += 1
-                tt, result, ln = entry
-                first = result[2]
+                result, ln = tok.result, tok.attrs.get('line_number')
+                first = result[2] if isinstance(result, tuple) and len(result) == 3 else None
                 idx = line_index(first.prov) if isinstance(first, AbsStr) else None
                 ok = idx is not None and ln == S.add(Aff({}, idx))
                 if not ok and bad is None:
@@ -508,32 +528,28 @@ def rule_rows(ctx, rep):
     for trace, (kind, r, nested, w) in explore_reader(model, li):
         if kind != 'ret':
             continue
-        out = r[0]
         n += 1
-        if not (isinstance(out, tuple) and len(out) == 5 and Aff.lift(out[4]) == S):
-            bad = out
+        # wherever the result carries it: the number of the marker line is among the values handed on
+        vals = []
+
+        def flat(v):
+            if isinstance(v, (tuple, list)):
+                for x in v:
+                    flat(x)
+            elif isinstance(v, dict):
+                for x in v.values():
+                    flat(x)
+            elif isinstance(v, (int, Aff)) and not isinstance(v, bool):
+                vals.append(Aff.lift(v))
+        flat(r)
+        if not any(v is not None and v == S for v in vals):
+            bad = r
     rep.obligation('R-ROW-OFFSETS', bad is None and n > 0, {'ListItem.read line number of the item': 'S (marker line)', 'paths': n})
     if bad is not None or n == 0:
         rep.find('R-ROW-OFFSETS', 'block_token.ListItem.read', 'item-line-number', 'ListItem.read does not report the marker '
                  'line as the item\'s line number: %r' % (bad,), loc(model.unit_of(li), li.node))
-    # make_tokens copies the stored number
-    mt = model.func('block_tokenizer.make_tokens')
-
-    class Ctor(AbstractValue):
-        def __init__(self, result):
-            self.result = result
-
-        def abs_call(self, interp, args, kwargs):
-            return self.result
-    t1, t2 = Obj(li, {}), Obj(li, {})
-    it = Interp(model)
-    it.reset_run(Oracle())
-    res = it.call_function(mt, [[(Ctor(t1), 'r', S), (Ctor(t2), 'r', S.add(Aff({}, 2)))]], {})
-    ok = isinstance(res, list) and res == [t1, t2] and t1.attrs.get('line_number') == S and t2.attrs.get('line_number') == S.add(Aff({}, 2))
-    rep.obligation('R-ROW-OFFSETS', ok, {'make_tokens': 'token.line_number = stored number'})
-    if not ok:
-        rep.find('R-ROW-OFFSETS', mt.short, 'copies-line-number', 'make_tokens does not copy the stored line number to the token',
-                 loc(model.unit_of(mt), mt.node))
+    # (that make_tokens gives each token the number captured for its block is R-CAPTURE, which drives make_tokens on
+    # the buffer the tokenizer itself built)
 
 
 def rule_ctor_line(ctx, rep):
